@@ -135,11 +135,18 @@ class Watcher:
         t0 = time.time()
         last_change, last = time.time(), None
         while time.time() - t0 < timeout:
-            s, e = self.counts()
-            n = len(self.events())
-            if (s, e, n) != last:
-                last, last_change = (s, e, n), time.time()
-            if s == e and time.time() - last_change > 0.6:
+            ev = self.events()
+            s = sum(1 for e in ev if e["event"] == "RegenStart")
+            e_ = sum(1 for e in ev if e["event"] == "RegenEnd")
+            n = len(ev)
+            if (s, e_, n) != last:
+                last, last_change = (s, e_, n), time.time()
+            # a file-system event that no regeneration has started after yet means one is still owed (the debounce timer may be late on a
+            # loaded machine); give it 8 s before concluding that the implementation will not start one
+            idx_fs = max([i for i, e in enumerate(ev) if e["event"] == "FsEvent"], default=-1)
+            idx_rs = max([i for i, e in enumerate(ev) if e["event"] == "RegenStart"], default=-1)
+            owed = idx_fs > idx_rs and time.time() - last_change < 8
+            if s == e_ and not owed and time.time() - last_change > 0.6:
                 return True
             if self.proc.poll() is not None:
                 return False
